@@ -159,7 +159,40 @@ mutual
       | .neg p => varsP n p
 end
 
+-- variables mentioned *directly* in a scope: not inside an aggregating expression or a negation
+-- (`GetTreeOfCombines`: a variable of a combine is outer iff an enclosing scope mentions it directly)
+mutual
+  def dvarsE : Nat → Expr → List String
+    | 0, _ => []
+    | n + 1, e =>
+      match e with
+      | .lit _ => []
+      | .var x => [x]
+      | .op _ args => args.flatMap (dvarsE n)
+      | .ite cs els => cs.flatMap (fun c => dvarsE n c.1 ++ dvarsE n c.2) ++ dvarsE n els
+      | .listE es => es.flatMap (dvarsE n)
+      | .recE fs => fs.flatMap (fun f => dvarsE n f.2)
+      | .sub e _ => dvarsE n e
+      | .call _ args => args.flatMap (fun a => dvarsE n a.2)
+      | .agg _ _ _ => []
+  def dvarsP : Nat → Prp → List String
+    | 0, _ => []
+    | n + 1, p =>
+      match p with
+      | .atom _ args => args.flatMap (fun a => dvarsE n a.2)
+      | .eq a b => dvarsE n a ++ dvarsE n b
+      | .test e => dvarsE n e
+      | .inn x l => dvarsE n x ++ dvarsE n l
+      | .conj ps => ps.flatMap (dvarsP n)
+      | .disj ps => ps.flatMap (dvarsP n)
+      | .neg _ => []
+end
+
 def FUEL : Nat := 400
+
+/-- a conjunct with its cached variable lists (all, direct) -/
+abbrev Item := Prp × List String × List String
+def mkItem (p : Prp) : Item := (p, varsP FUEL p, dvarsP FUEL p)
 
 /-! ### scalar operators (SQLite semantics on the generated domain: integers and strings) -/
 
@@ -339,18 +372,18 @@ mutual
   /-- all solutions (extensions of `env`) of a list of conjuncts, scheduled by readiness -/
   def solve (db : DB) : Nat → Env → List Prp → Except String (List Env)
     | 0, _, _ => .error "out of fuel"
-    | n + 1, env, todo => solveI db n env (todo.map (fun p => (p, varsP FUEL p)))
+    | n + 1, env, todo => solveI db n env (todo.map mkItem)
   /-- conjuncts carry their (cached) variable lists -/
-  def solveI (db : DB) : Nat → Env → List (Prp × List String) → Except String (List Env)
+  def solveI (db : DB) : Nat → Env → List Item → Except String (List Env)
     | 0, _, _ => .error "out of fuel"
     | _ + 1, env, [] => .ok [env]
     | n + 1, env, todo =>
       match pickReady n env [] todo with
-      | none => .error "unsafe rule: no conjunct can be evaluated"
+      | none => .error "rule is not range-restricted: no conjunct can be evaluated"
       | some (p, rest) =>
         match p with
-        | .conj ps => solveI db n env (ps.map (fun q => (q, varsP FUEL q)) ++ rest)
-        | .disj ps => concatMapM (fun q => solveI db n env ((q, varsP FUEL q) :: rest)) ps
+        | .conj ps => solveI db n env (ps.map mkItem ++ rest)
+        | .disj ps => concatMapM (fun q => solveI db n env (mkItem q :: rest)) ps
         | .atom pn args =>
           match lookup pn db with
           | none => .error ("unknown predicate " ++ pn)
@@ -421,13 +454,13 @@ mutual
           let ve ← evalE db n env e
           if sqlEq ve v then matchRow db n env rest row else .ok none
   /-- first conjunct that can be evaluated now; returns it and the others (order kept) -/
-  def pickReady : Nat → Env → List (Prp × List String) → List (Prp × List String) →
-      Option (Prp × List (Prp × List String))
+  def pickReady : Nat → Env → List Item → List Item → Option (Prp × List Item)
     | 0, _, _, _ => none
     | _ + 1, _, _, [] => none
-    | n + 1, env, seen, (p, pv) :: rest =>
+    | n + 1, env, seen, (p, pv, pd) :: rest =>
       let others := seen.reverse ++ rest
-      let otherVars := others.flatMap (·.2)
+      -- a variable of an aggregating expression / negation is outer iff it is mentioned directly elsewhere
+      let otherVars := others.flatMap (·.2.2)
       -- variables of p that matter: bound already, or shared with other conjuncts
       let needBound (vs : List String) : Bool :=
         vs.all (fun v => (lookup v env).isSome || !otherVars.contains v)
@@ -453,7 +486,7 @@ mutual
         | .inn x l => needBoundE env otherVars l &&
             (match x with | .var _ => true | e => needBoundE env otherVars e)
         | .neg _ => needBound pv
-      if ready then some (p, others) else pickReady n env ((p, pv) :: seen) rest
+      if ready then some (p, others) else pickReady n env ((p, pv, pd) :: seen) rest
   /-- every variable of `e` is bound, except variables local to aggregating sub-expressions -/
   def needBoundE (env : Env) (otherVars : List String) : Expr → Bool
     | e => (freeOuter FUEL e).all (fun v => (lookup v env).isSome) &&
